@@ -467,7 +467,7 @@ def process_extract(header, directives, ctx):
         if d[0] == 'mutant':
             mname, old, new, expect = d[1]
             ctx['mutants'].append(dict(name=mname, old=old, new=new, expect=expect, item=ispec, file=fspec))
-            if ctx.get('apply_mutant') == mname:
+            if ctx.get('apply_mutant') == mname and not ctx.get('mutant_post'):
                 text, _ = tok_replace(text, old, new, what='mutant ' + mname)
                 ctx['mutant_applied'] = True
     if kind == 'make_fn':
@@ -487,6 +487,10 @@ def process_extract(header, directives, ctx):
             text, n = tok_replace(text, old, new, all_)
             kindlbl = 'insert-only' if is_insert_only(old, new) else 'rewrite'
             log.append(('subst/' + kindlbl, old, new))
+    for d in directives:
+        if d[0] == 'mutant' and ctx.get('apply_mutant') == d[1][0] and ctx.get('mutant_post'):
+            text, _ = tok_replace(text, d[1][1], d[1][2], what='mutant ' + d[1][0])
+            ctx['mutant_applied'] = True
     rec['drops'] = rec['drops'] + [(a, b[:300], c[:300]) for (a, b, c) in log]
     # 3. inserts (contracts, ghost text) on the rewritten text
     if kind == 'fn':
@@ -587,9 +591,20 @@ def is_insert_only(old, new):
 
 
 def assemble(unit_path, apply_mutant=None, vacuity=False, hooks=None):
+    if apply_mutant:
+        # a mutant is applied to the raw source text; if that makes a later substitution lose its
+        # anchor, apply it after the substitutions instead (the mutant text must then match the rewritten form)
+        try:
+            return _assemble(unit_path, apply_mutant, vacuity, hooks, False)
+        except Undecided:
+            return _assemble(unit_path, apply_mutant, vacuity, hooks, True)
+    return _assemble(unit_path, apply_mutant, vacuity, hooks, False)
+
+
+def _assemble(unit_path, apply_mutant, vacuity, hooks, mutant_post):
     lines = open(unit_path).read().split('\n')
     ex = Extracted()
-    ctx = dict(mutants=[], apply_mutant=apply_mutant, vacuity=vacuity, contracted=[])
+    ctx = dict(mutants=[], apply_mutant=apply_mutant, vacuity=vacuity, contracted=[], mutant_post=mutant_post)
     out = []
     i = 0
 
